@@ -1175,12 +1175,22 @@ func c20BenignCond(cond ssa.Value) bool {
 	case *ssa.BinOp:
 		switch x.Op {
 		case token.LSS:
-			// loop bound: index < len(...)
+			// loop bound: index < len(...) or index < reflect.Value.Len()
 			if _, ok := isLenCall(x.Y); ok {
+				return true
+			}
+			if isReflectCall(x.Y, "Len") {
 				return true
 			}
 		case token.EQL, token.NEQ:
 			if core.IsNilConst(x.X) || core.IsNilConst(x.Y) {
+				return true
+			}
+			// the kind of the reflected value against a constant: selects what kind of thing is walked
+			if _, isC := x.Y.(*ssa.Const); isC && isReflectCall(x.X, "Kind") {
+				return true
+			}
+			if _, isC := x.X.(*ssa.Const); isC && isReflectCall(x.Y, "Kind") {
 				return true
 			}
 		}
@@ -1195,6 +1205,9 @@ func c20BenignCond(cond ssa.Value) bool {
 		if x.Call.IsInvoke() && x.Call.Method.Name() == "Variable" {
 			return true
 		}
+		if isReflectCall(x, "IsNil") {
+			return true // a nil test on the reflected value
+		}
 	case *ssa.Phi:
 		// a && b / a || b
 		for _, e := range x.Edges {
@@ -1208,6 +1221,19 @@ func c20BenignCond(cond ssa.Value) bool {
 		return true
 	}
 	return false
+}
+
+// isReflectCall: v is a call of the named method of reflect.Value / reflect.Type.
+func isReflectCall(v ssa.Value, name string) bool {
+	c, ok := v.(*ssa.Call)
+	if !ok {
+		return false
+	}
+	if c.Call.IsInvoke() {
+		return c.Call.Method.Name() == name && c.Call.Method.Pkg() != nil && c.Call.Method.Pkg().Path() == "reflect"
+	}
+	f := c.Call.StaticCallee()
+	return f != nil && f.Name() == name && f.Pkg != nil && f.Pkg.Pkg.Path() == "reflect"
 }
 
 // fieldOwner: the name of the struct type whose field the address selects.
@@ -1322,6 +1348,55 @@ func c20R8(p *core.Program, r *core.Report) {
 			}
 		}
 		walk(ex)
+	}
+	// the asset-reference walk: inspect.dependencies, its callbacks, the reflection walker and every function of the
+	// package they hand a callback to — a hand-over is a call of a callback, of DependencyContainer.Dependencies or of
+	// another function of this family
+	if dep := p.Func("flows/inspect", "dependencies"); dep != nil {
+		takesCallback := func(g *ssa.Function) bool {
+			if g == nil || g.Blocks == nil || core.FuncPkgPath(g) != core.FuncPkgPath(dep) {
+				return false
+			}
+			for _, prm := range g.Params {
+				if _, isSig := prm.Type().Underlying().(*types.Signature); isSig {
+					return true
+				}
+			}
+			return false
+		}
+		family := map[*ssa.Function]bool{}
+		var order []*ssa.Function
+		var add func(f *ssa.Function)
+		add = func(f *ssa.Function) {
+			if family[f] {
+				return
+			}
+			family[f] = true
+			order = append(order, f)
+			for _, cs := range core.Calls(f, false) {
+				if g := cs.Common().StaticCallee(); takesCallback(g) {
+					add(g)
+				}
+			}
+			for _, an := range f.AnonFuncs {
+				add(an)
+			}
+		}
+		add(dep)
+		hand := func(cs core.CallSite) string {
+			if g := cs.Common().StaticCallee(); g != nil && family[g] {
+				return g.Name()
+			}
+			if cs.Common().IsInvoke() && cs.Common().Method.Name() == "Dependencies" {
+				return "DependencyContainer.Dependencies"
+			}
+			return paramCall(cs)
+		}
+		for _, f := range order {
+			stages = append(stages, stage{f, "inspect.dependencies/" + f.Name(), hand})
+		}
+		r.Count("dependency_walk_functions", len(order))
+		r.Require("dependency_walk_functions", len(order), 2)
 	}
 	n := 0
 	per := map[string]int{}
